@@ -19,7 +19,11 @@ Inductive bs : stmt -> state -> outcome -> Prop :=
     bs body s1 (ONormal s2) -> bs (SWhile c body) s2 o -> bs (SWhile c body) s o
 | bs_while_ret c body s vc s1 v s2 : eval c s = Some (vc, s1) -> truth vc = Some true ->
     bs body s1 (OReturn v s2) -> bs (SWhile c body) s (OReturn v s2)
-| bs_return e s v s1 : eval e s = Some (v, s1) -> bs (SReturn e) s (OReturn v s1).
+| bs_return e s v s1 : eval e s = Some (v, s1) -> bs (SReturn e) s (OReturn v s1)
+| bs_break s : bs SBreak s (OBreak s)
+| bs_seq_brk a b s s1 : bs a s (OBreak s1) -> bs (SSeq a b) s (OBreak s1)
+| bs_while_brk c body s vc s1 s2 : eval c s = Some (vc, s1) -> truth vc = Some true ->
+    bs body s1 (OBreak s2) -> bs (SWhile c body) s (ONormal s2).
 
 Definition from (f0 : nat) (st : stmt) (s : state) (o : outcome) : Prop := forall f, (f0 <= f)%nat -> exec f st s = o.
 
@@ -40,6 +44,9 @@ Proof.
     rewrite H, H0, H3 by lia. apply H4. lia.
   - destruct IHbs as (f1 & H3). exists (S f1). intros f Hf. destruct f; [lia|]. cbn [exec]. rewrite H, H0, H3 by lia. reflexivity.
   - exists 1%nat. intros f Hf. destruct f; [lia|]. cbn [exec]. now rewrite H.
+  - exists 1%nat. intros f Hf. destruct f; [lia|reflexivity].
+  - destruct IHbs as (f1 & H1). exists (S f1). intros f Hf. destruct f; [lia|]. cbn [exec]. rewrite H1 by lia. reflexivity.
+  - destruct IHbs as (f1 & H3). exists (S f1). intros f Hf. destruct f; [lia|]. cbn [exec]. rewrite H, H0, H3 by lia. reflexivity.
 Qed.
 
 (* ---- helpers ---- *)
@@ -63,6 +70,9 @@ Proof. now destruct w. Qed.
 
 Lemma chk_ok z : int_min <= z <= int_max -> chk z = Some (VInt z).
 Proof. intros H. unfold chk, Imp.in_int. replace ((int_min <=? z) && (z <=? int_max)) with true by lia. reflexivity. Qed.
+
+Lemma wrap_id z : int_min <= z <= int_max -> (z + 2147483648) mod u32 - 2147483648 = z.
+Proof. unfold int_min, int_max, u32. intros H. lia. Qed.
 
 Lemma char_byte x : 0 <= x <= 255 -> ((x + 128) mod 256 - 128) mod 256 = x.
 Proof. intros H. lia. Qed.
@@ -104,7 +114,7 @@ Qed.
 Definition loop3 (st : stmt) : stmt := match st with SSeq _ (SSeq _ (SSeq w _)) => w | _ => SSkip end.
 Definition tail3 (st : stmt) : stmt := match st with SSeq _ (SSeq _ (SSeq _ t)) => t | _ => SSkip end.
 
-Ltac chks := rewrite ?chk_ok by (unfold int_min, int_max in *; lia).
+Ltac chks := rewrite ?chk_ok by (unfold int_min, int_max in *; lia); rewrite ?wrap_id by (unfold int_min, int_max in *; lia).
 Ltac evs := ev; chks; ev; chks; ev; chks; ev.
 (* one store through out: *out++ = e, the buffer written sequentially *)
 Ltac store_tac :=
